@@ -165,9 +165,34 @@ fn always_detected_fault(orig: &[u8], got: &[u8], table: &ExtTable) -> Option<(&
         // first fragment with header extensions
         let p = wire::parse(orig, table).ok()?;
         let last_is_final = p.exts.last().map(|e| e.0 < 0x100 && matches!(table.lookup(e.0), MExt::Final(_))).unwrap_or(false);
-        if p.exts.is_empty() || last_is_final || p.payload.start < 2 {
-            // a final mandatory extension stands for the protocol type: its id is spread differently; not classified
+        if p.exts.is_empty() || p.payload.start < 2 {
             return None;
+        }
+        if last_is_final {
+            // a final mandatory extension stands for the protocol type: its id (and data) sit before the payload and
+            // are not classified; total length, label and payload are CRC input as in any other first fragment, and a
+            // burst confined to one of them leaves the parse of the chain as it was
+            let (fb, lb) = (first / 8, last / 8);
+            let region = |b: usize| -> u8 {
+                if (3..5).contains(&b) {
+                    1
+                } else if b >= 7 && b < 7 + ll {
+                    2
+                } else if b >= p.payload.start {
+                    3
+                } else {
+                    0
+                }
+            };
+            if region(fb) == 0 || region(fb) != region(lb) {
+                return None;
+            }
+            let site = match region(fb) {
+                1 => "first_ext_final:total_len",
+                2 => "first_ext_final:label",
+                _ => "first_ext_final:payload",
+            };
+            return Some(("C03.burst_in_protected_bytes_not_detected", site.to_string(), fid));
         }
         let ptoff = p.payload.start - 2;
         let (fb, lb) = (first / 8, last / 8);
@@ -1157,6 +1182,9 @@ impl Scenario for RxSim {
                     if op.has("orig") {
                         if let Some((clause, site, fid)) = always_detected_fault(op.get_h("orig"), bytes, &w.table) {
                             st.inc("probe.always_detected_fault_applied");
+                            if site.starts_with("first_ext_final") {
+                                st.inc("probe.burst_classified_on_first_fragment_ending_in_final_mandatory_extension");
+                            }
                             w.no_delivery.insert(fid, (clause, site));
                         }
                     } else if let Some((Kind::First, _, gl)) = wire::header(bytes) {
@@ -2058,12 +2086,25 @@ pub mod gen {
             let bpt = crate::scen::flow::gen::ptype(rng);
             // half of the base trains carry a header extension in their first fragment (the protected bytes are
             // then three separate regions, see always_detected_fault)
-            let exts: Vec<(u16, Vec<u8>)> = match rng.below(4) {
+            let exts: Vec<(u16, Vec<u8>)> = match rng.below(5) {
                 0 => vec![(0x0301, rng.bytes(4))],
                 1 => vec![(0x01, rng.bytes(4)), (0x0200 | rng.below(256) as u16, rng.bytes(2))],
+                // a chain that ends in a final mandatory extension the receiver knows (its id stands for the protocol
+                // type): 0x81 with two bytes of data, 0x82 without, alone or behind an optional extension
+                2 => {
+                    let mut e: Vec<(u16, Vec<u8>)> = if rng.chance(1, 2) { vec![(0x0200 | rng.below(256) as u16, rng.bytes(2))] } else { vec![] };
+                    if rng.chance(1, 2) {
+                        e.push((0x81, rng.bytes(2)));
+                    } else {
+                        e.push((0x82, vec![]));
+                    }
+                    e
+                }
                 _ => vec![],
             };
-            let pkts = fragment(&pdu, fid, bpt, &lab, &exts, false, n, None);
+            let fm = exts.last().map(|e| e.0 < 0x100 && (e.0 == 0x81 || e.0 == 0x82)).unwrap_or(false);
+            let bpt = if fm { exts.last().unwrap().0 } else { bpt };
+            let pkts = fragment(&pdu, fid, bpt, &lab, &exts, fm, n, None);
             // storage: ample, or exactly the PDU
             let sto = if rng.chance(1, 4) { len.max(1) } else { 200 };
             let mut c = cfg(rng.usize_in(1, 3), sto, sto, 3, &table);
